@@ -194,7 +194,11 @@ func TestVerifC17Child(t *testing.T) {
 	stop.Store(true)
 	bg.Wait()
 	rng := rand.New(rand.NewSource(wseed*1000 + int64(gen)*100 + 70))
-	time.Sleep(time.Duration(rng.Int63n(int64(3*commitEvery)+1)) * time.Nanosecond)
+	lull := 3 * commitEvery
+	if lull > 20*time.Millisecond {
+		lull = 20 * time.Millisecond
+	}
+	time.Sleep(time.Duration(rng.Int63n(int64(lull) + 1)))
 	if clean {
 		tr.Emit("CloseBegin")
 		cctx, cancel := context.WithTimeout(ctx, 20*time.Second)
